@@ -147,6 +147,13 @@ def scenarios(rng, tmp, tier, pre=0.5):
                       want="nonzero", events=["lostclean", "stop"]))
         S.append(dict(name=f"{vs}: 'key a key b key c': unknown message right after ServerInit",
                       actions=handshake(v) + [("send", b"\x63"), ("silent",)], args=quick, want="nonzero", events=["lostclean", "stop"]))
+        # a command that raises at run time (a key name nobody knows, an image that does not exist, an unwritable capture
+        # file): the script was not carried out, whatever the (healthy) server does
+        S.append(dict(name=f"{vs}: 'key ctrl-alt-backspace key a' (unknown key name), --timeout 2", actions=handshake(v) + [("silent",)],
+                      args=["key", "ctrl-alt-backspace", "key", "a"], timeout=2, want="nonzero", events=["timeout", "stop"]))
+        S.append(dict(name=f"{vs}: 'expect missing.png 0 key a' (no such image), --timeout 2", actions=handshake(v) + [("silent",)],
+                      args=["expect", os.path.join(tmp, "missing.png"), "0", "key", "a"], timeout=2, want="nonzero",
+                      events=["timeout", "stop"]))
         # the script ends with a pause and the server hangs up (cleanly) while it is still running: not completed
         S.append(dict(name=f"{vs}: 'key a pause 3': clean close 1 s into the final pause", actions=handshake(v) + [("sleep", 1.0), ("close",)],
                       args=["key", "a", "pause", "3"], want="nonzero", events=["lostclean", "stop"]))
@@ -180,7 +187,7 @@ def scenarios(rng, tmp, tier, pre=0.5):
     if tier == "quick":
         # a third of the grid per run, always with the special cases
         keep = [s for i, s in enumerate(S) if s.get("big") or s["actions"] is None or "slow handshake" in s["name"]
-                or "key a key b key c" in s["name"] or "final pause" in s["name"] or (i + rng.randrange(3)) % 3 == 0]
+                or "key a key b key c" in s["name"] or "final pause" in s["name"] or "unknown key name" in s["name"] or (i + rng.randrange(3)) % 3 == 0]
         return keep
     return S
 
